@@ -7,7 +7,7 @@
     servers, instances, cycles; any dimension. *)
 From Coq Require Import ZArith QArith List Bool.
 From TM Require Import Sched.Vec Sched.Types Sched.Tree Sched.Cycle Sched.Events Sched.MapsP Sched.Steps Sched.InvAcct.
-From TM Require Import Base.ShapeCanon.
+From TM Require Import Base.ShapeCanon Master.SrvState Master.SrvStateP.
 Import ListNotations.
 Open Scope Z_scope.
 
@@ -71,6 +71,14 @@ Example C01_nonvacuous_run :
   map (fun a => (a_name a, a_server a)) (c_apps (run (init_cell 3 2000 1) ex_ops))
   = [(1, None); (2, None); (3, Some 1001)].
 Proof. vm_compute. reflexivity. Qed.
+
+(** Loader level: reload_server keeps the running Server object - with its capacity and free vector - only when the
+    new declaration is identical in capacity (exactly), partition label, own traits and parent bucket; otherwise the
+    server is replaced and its placements are re-evaluated (model Master/SrvState.v same_decl, whose decision drives the
+    correspondence stage of harness/props/c08master.py; the seeded change c01-is-same-isclose is what this excludes) *)
+Theorem C01_reload_keeps_only_identical : forall old new, same_decl old new = true -> old = new.
+Proof. exact reload_keeps_only_identical. Qed.
+Print Assumptions C01_reload_keeps_only_identical.
 
 (** the functions of treadmill/scheduler/__init__.py these theorems were proved about still have the statement
     skeleton the model was written from (re-extracted from the Python AST on every run, harness/tables_shape.py;
